@@ -8,6 +8,7 @@ CONSTANTS
   Keys <- T_None
   AbsentKey = "K0"
   MaxKeyN = 0
+  MaxEntries = 65535
   SizeDomain <- T_None
   FinalCompare = TRUE
   Clamp = "zero"
